@@ -69,8 +69,13 @@ func (s *Server) Start(ctx context.Context, readyFunc func()) {
 		return
 	}
 
-	// Start listener go routine.
-	go s.serve(ctx)
+	// Start listener go routine.  It is tracked by the WaitGroup so that Drain also waits for
+	// the accept loop to end, and sessions are only ever added while it is counted.
+	s.wg.Add(1)
+	go func() {
+		defer s.wg.Done()
+		s.serve(ctx)
+	}()
 	readyFunc()
 
 	// Wait for shutdown.
